@@ -9,6 +9,9 @@ FIX = """        except BaseException:
 """
 
 CASES = [
+    dict(name='revert-fix-tracer-reentrance', kind='mutant', rule='R5', key='re-entered', edits=[dict(file='pedal/sandbox/tracer.py',
+         old="        self.old_tracers.append(sys.gettrace())\n        sys.settrace(self.tracer)\n\n    def __exit__(self, exc_type, exc_val, traceback):\n        sys.settrace(self.old_tracers.pop())",
+         new="        self.old_tracer = sys.gettrace()\n        sys.settrace(self.tracer)\n\n    def __exit__(self, exc_type, exc_val, traceback):\n        sys.settrace(self.old_tracer)")]),
     dict(name='revert-fix-baseexception-arm', kind='mutant', rule='R1', key='exceptional-exit',
          edits=[dict(file=SB, old=FIX, new='')]),
     dict(name='baseexception-arm-without-release', kind='mutant', rule='R1', key='exceptional-exit',
@@ -45,14 +48,14 @@ CASES = [
          edits=[dict(file=SB, old="        self._module_overrides['__builtins__'] = builtins\n        # Handle allowing",
                      new="        self._module_overrides['__builtins__'] = builtins\n        sys.modules['pedal'] = overridden_modules.get('pedal')\n        # Handle allowing")]),
     dict(name='native-tracer-exit-no-restore', kind='mutant', rule='R5', key='native',
-         edits=[dict(file=TR, old="    def __exit__(self, exc_type, exc_val, traceback):\n        sys.settrace(self.old_tracer)",
-                     new="    def __exit__(self, exc_type, exc_val, traceback):\n        sys.settrace(None)")]),
+         edits=[dict(file=TR, old="    def __exit__(self, exc_type, exc_val, traceback):\n        sys.settrace(self.old_tracers.pop())",
+                     new="    def __exit__(self, exc_type, exc_val, traceback):\n        self.old_tracers.pop()\n        sys.settrace(None)")]),
     dict(name='call-tracer-enter-no-save', kind='mutant', rule='R5', key='calls',
-         edits=[dict(file=TR, old="        self._old_trace = sys.gettrace()\n        sys.settrace(self.trace_dispatch)",
-                     new="        sys.settrace(self.trace_dispatch)")]),
+         edits=[dict(file=TR, old="        self._old_traces.append(sys.gettrace())\n        sys.settrace(self.trace_dispatch)",
+                     new="        self._old_traces.append(None)\n        sys.settrace(self.trace_dispatch)")]),
     dict(name='call-tracer-exit-conditional', kind='mutant', rule='R5', key='calls',
-         edits=[dict(file=TR, old="        sys.settrace(self._old_trace)\n        self.quitting = True",
-                     new="        if exc_type is None:\n            sys.settrace(self._old_trace)\n        self.quitting = True")]),
+         edits=[dict(file=TR, old="        sys.settrace(self._old_traces.pop())\n        self.quitting = True",
+                     new="        if exc_type is not None:\n            return False\n        sys.settrace(self._old_traces.pop())\n        self.quitting = True")]),
     dict(name='exec-outside-with', kind='mutant', rule='R5', key='exec-inside-with-trace',
          edits=[dict(file=SB, old="            with self.trace.as_filename(filename, code):\n                exec(compiled_code, self.data)",
                      new="            exec(compiled_code, self.data)")]),
